@@ -42,7 +42,7 @@ func TestRaceSupplement(t *testing.T) {
 		sc := newSharedCodecs()
 		fo := &c18Focus{}
 		if T.Bool("focus", 0.4) {
-			fo.kind, fo.codec, fo.dtype, fo.growing = 1+T.Draw("focus.kind", 5), T.Draw("focus.codec", 6), 11+T.Draw("focus.dtype", 10), T.Bool("focus.growing", 0.5)
+			fo.kind, fo.codec, fo.dtype, fo.growing = 1+T.Draw("focus.kind", 5), T.Draw("focus.codec", 6), []int{11, 12, 13, 14, 16, 17, 18, 19, 20, 7, 21, 22, 7, 21, 22}[T.Draw("focus.dtype", 15)], T.Bool("focus.growing", 0.5)
 			M = 3 + T.Draw("focus.tasks", 4)
 		}
 		var all [][]shareOp
